@@ -186,12 +186,12 @@ int main(int argc, char **argv) {
 	unsigned di = 0;
 	for(auto &sc : scs) {
 		std::string mode = std::string("dfs:") + sc.name;
-		if(!want_mode(mode.c_str()) || (di++ % opt.nshards) != opt.shard) continue;
+		if(!want_mode(mode.c_str()) || (opt.mode.empty() && (di++ % opt.nshards) != opt.shard)) continue;
 		int bound = sc.workers.size() > 2 ? (t ? 3 : 2) : (t ? 4 : 3);
 		sched::Dfs dfs(bound);
 		long long i = 0; bool complete = false; uint64_t cap = t ? 1500000 : 60000;
 		do {
-			if(want_case(i)) run_world(mode.c_str(), i, sc, dfs);
+			run_world(mode.c_str(), i, sc, dfs);
 			i++;
 			if(!rec.violations.empty()) break;
 			if(!dfs.advance()) { complete = true; break; }
